@@ -170,8 +170,14 @@ PROPS['C08'] = dict(
 # properties it serves (`props`); `tier` = 'thorough' keeps slow ones out of the
 # quick run.
 # ---------------------------------------------------------------------------
-# slow harnesses (> ~20 s of solver time each) run in the thorough tier only
-THOROUGH_ONLY = {
+# slow harnesses run in the thorough tier only: a fixed list plus everything whose
+# measured solver time (contracts/kani/timings.json, tools/ktime.py) exceeds QUICK_LIMIT_S
+QUICK_LIMIT_S = 75.0
+import json as _json, os as _os
+_tp = _os.path.join(_os.path.dirname(_os.path.abspath(__file__)), 'kani', 'timings.json')
+TIMINGS = _json.load(open(_tp)) if _os.path.exists(_tp) else {}
+THOROUGH_ONLY = {h for h, t in TIMINGS.items() if (t.get('solver_s') or 0) > QUICK_LIMIT_S} | {
+    'k_builder_inforeq_odd_then_entry',
     'k_vbe_decode_control', 'k_vbe_decode_mode', 'k_vbe_new_control', 'k_vbe_new_mode',
     'k_rsdpv1_signature', 'k_rsdpv2_signature', 'k_rsdpv1_oem_id', 'k_rsdpv2_oem_id',
 }
@@ -242,7 +248,36 @@ def assumptions(pid):
 # ---------------------------------------------------------------------------
 NOT_APPLICABLE = {}
 
+for _pid, _lvl in (('C13', 'other'), ('C16', 'other'), ('C17', 'other')):
+    PROPS.setdefault(_pid, dict(v=[], k_quick=[], k_thorough=[]))['level'] = _lvl
+PROPS['C17']['v'] = [('u_mb2_dstlen', ['CommandLineTag::dst_len', 'BootLoaderNameTag::dst_len', 'ModuleTag::dst_len', 'COMMANDLINETAG_BASE_SIZE', 'BOOTLOADERNAMETAG_BASE_SIZE', 'MODULETAG_BASE_SIZE'])]
+PROPS.setdefault('C11', dict(v=[], k_quick=[], k_thorough=[]))
+PROPS['C11']['v'] = [('u_hdr_core', ['Multiboot2Header::iter', 'TagIter::new', 'TagIter::next', 'walk_collect', 'HeaderTagHeader::payload_len',
+                                     'Multiboot2BasicHeader::length', 'Multiboot2BasicHeader::header_magic', 'Multiboot2BasicHeader::checksum'])]
+PROPS['C13']['explanation'] = 'Bounded contract check: Kani explores the real find_header on every buffer length 0..=48 and every content (unwinding assertions on) against the oracle transcribed from the statement (first occurrence of the little-endian magic, alignment, truncation, returned sub-slice identical in address and length; total: any panic is a failure). The 8192-byte search-window clause is NOT decided: unwinding 8189 window iterations is out of reach of CBMC here, and Iterator::position cannot be specified in this Verus. An edit of the constant 8192 would not be noticed.'
+PROPS['C16']['explanation'] = 'Bounded contract check: Kani verifies new_boxed on the compiled code for 0..=3 content slices of 0..=5 symbolic bytes each (header size field = 8 + total, header || content without gaps, size_of_val = total rounded up to 8, 8-aligned allocation, Kani`s allocator model checks that Box drop deallocates with the allocation`s layout) and clone_dyn for every declared size 8..=17 (every padding residue): same declared size, same bytes. This contract is what C06/C07/C12 assume in Verus.'
+PROPS['C17']['explanation'] = 'Extent ("never looks past the declared size") follows from the proved dst_len contracts of C05 (Verus, all sizes). String semantics are core-library loops outside Verus: Kani checks parse_slice_as_string for EVERY byte string of length 0..=6 (all 256 values per position) against an independent UTF-8 validator and first-NUL oracle, and the three string-tag constructors / parsers for bounded lengths (every padding residue, NUL in padding or next tag => MissingNul).'
+
 MANIFEST_TEXT = {
+    'C11': dict(
+        text='Proof on compiled code: for each of the 11 header-tag kinds and the basic header a loop-free Kani harness over ALL bytes of the tag (type / flags / size constrained to valid specification values) proves every accessor equal to the little-endian value at the specified offset; the tag walk from offset 16 in steps of size rounded up to 8 is proved generically in Verus (TagIter::next contract + walk_collect, instantiated for HeaderTagHeader through the Header trait contract) and Multiboot2Header::iter is proved to pass exactly [16, length). First-match getters and information-request lists are bounded harnesses (regions of 32/40/48 bytes; n <= 4).',
+        note='Enumerated fields restricted to defined values (statement precondition). get_tag uses Iterator::find: bounded.',
+    ),
+    'C13': dict(
+        text=PROPS['C13']['explanation'],
+        note='Level: bounded contract check, not a proof. Undecided clause: the 8192-byte window limit (stated blind spot).',
+        technique='bounded contract check with Kani (unwinding assertions) on the real function',
+    ),
+    'C16': dict(
+        text=PROPS['C16']['explanation'],
+        note='Level: bounded contract check, not a proof: iterator adapters (.iter().map().sum()) and raw allocation are outside this Verus; "freed exactly once" is ownership (rustc), "same layout" is Kani`s dealloc check.',
+        technique='bounded contract check with Kani on the real functions; contract reused as an assumed dependency by the Verus builder units',
+    ),
+    'C17': dict(
+        text=PROPS['C17']['explanation'],
+        note='Level: proof for the extent / size law part (via C05 units), bounded for CStr / UTF-8 semantics (core library loops).',
+        technique='Verus contracts for the extent; bounded Kani contract checks for string semantics',
+    ),
     'C01': dict(
         text='Proof by encapsulation: every function of the boot-information parse path that contains `unsafe` (ref_from_bytes/slice/ptr, cast, MaybeDynSized::{header,payload,as_bytes,as_ptr}, TagIter::next, BootInformation::load/has_valid_end_tag/tags, EFIMemoryAreaIter::{new,next}, EFIMemoryMapTag::memory_areas, ElfSectionsTag::sections, ElfSectionIter::next, ElfSection::get, FramebufferTag::buffer_type + Reader) is verified by Verus on its verbatim body for all inputs: each raw-pointer primitive carries an in-allocation + alignment precondition, each handed-out reference/slice is proved to lie inside the tag it was derived from, panic sites are only reachable where the contract allows a controlled panic, loops have decreases measures. Memory safety of every sequence of safe calls then follows from the Rust type system. Kani proves the per-kind decoders, RSDP checksum extents and layout facts on the compiled code.',
         note='Trusted: pointer-extent prelude; allocation-level provenance (Stacked/Tree Borrows not modelled); references are identified with their values in the spec logic (two distinct objects with equal contents are conflated); field-projection layout facts (efi_tag_wf / elf_tag_wf / fb_tag_wf, DynSizedStructure::{header,payload}) are assumed in V and checked by Kani where Kani can compile the type (not ElfSectionsTag: Kani ICE). Debug formatters are safe compositions of these functions (not run under a verifier). ELF section names read an external address (excluded by the statement). Known finding: VBEModeInfo.memory_model enum-typed field.',
